@@ -145,9 +145,11 @@ func (c *IAMCache) CreateAccount(account Account) error {
 	// lifetime of the request, otherwise Fiber will reuse and corrupt
 	// these entries
 	acct := Account{
-		Access: strings.Clone(account.Access),
-		Secret: strings.Clone(account.Secret),
-		Role:   Role(strings.Clone(string(account.Role))),
+		Access:  strings.Clone(account.Access),
+		Secret:  strings.Clone(account.Secret),
+		Role:    Role(strings.Clone(string(account.Role))),
+		UserID:  account.UserID,
+		GroupID: account.GroupID,
 	}
 
 	c.iamcache.set(acct.Access, acct)
